@@ -9,6 +9,7 @@ import (
 	"github.com/z7zmey/php-parser/pkg/position"
 	"github.com/z7zmey/php-parser/pkg/token"
 	"github.com/z7zmey/php-parser/pkg/zzsim"
+	zsync "github.com/z7zmey/php-parser/pkg/zzsimsync"
 )
 
 // ---- reference model of one pool: every object ever returned, with the stamp
@@ -86,16 +87,30 @@ func (ts *poolTaskState) verify(ti int, when string) bool {
 	return true
 }
 
-func runPoolTask(ti int, pt *scn.PoolTask, ts *poolTaskState, stampBase uint64) {
-	seen := map[unsafe.Pointer]int{}
-	next := stampBase
-	defer func() {
-		zzsim.BeginOp(zzsim.Inf)
-		if r := recover(); r != nil {
-			ts.add("P0-get-returns", "get-panicked", "task "+strconv.Itoa(ti)+": "+short(panicText(r), 200))
-		}
-	}()
-	for pi, sp := range pt.Pools {
+// poolRun executes the operations of one pool task. Its steps are methods so
+// that one task's operations can be executed by a single simulated task or - in
+// relay runs - by two simulated tasks taking turns (a pool created by one
+// goroutine and used by another, handed over with proper synchronisation).
+type poolRun struct {
+	ti   int
+	pt   *scn.PoolTask
+	ts   *poolTaskState
+	seen map[unsafe.Pointer]int
+	next uint64
+	dead bool // a violation ended the task
+}
+
+func (pr *poolRun) guard() {
+	zzsim.BeginOp(zzsim.Inf)
+	if r := recover(); r != nil {
+		pr.dead = true
+		pr.ts.add("P0-get-returns", "get-panicked", "task "+strconv.Itoa(pr.ti)+": "+short(panicText(r), 200))
+	}
+}
+
+func (pr *poolRun) create() {
+	defer pr.guard()
+	for _, sp := range pr.pt.Pools {
 		m := &poolModel{spec: sp}
 		zzsim.BeginOp(100000 + 100*int64(sp.Block))
 		if sp.Type == "token" {
@@ -103,107 +118,183 @@ func runPoolTask(ti int, pt *scn.PoolTask, ts *poolTaskState, stampBase uint64) 
 		} else {
 			m.pp = position.NewPool(sp.Block)
 		}
-		ts.models = append(ts.models, m)
-		_ = pi
+		pr.ts.models = append(pr.ts.models, m)
 	}
-	for oi, op := range pt.Ops {
-		switch op.Kind {
-		case "get":
-			m := ts.models[op.Pool]
-			for k := 0; k < op.N; k++ {
-				zzsim.BeginOp(100000 + 100*int64(m.spec.Block))
-				var ptr unsafe.Pointer
-				next++
-				if m.spec.Type == "token" {
-					t := m.tp.Get()
-					zzsim.BeginOp(zzsim.Inf)
-					if t == nil {
-						ts.add("P0-get-returns", "get-nil:token", "task "+strconv.Itoa(ti)+" op "+strconv.Itoa(oi)+": token pool (block "+strconv.Itoa(m.spec.Block)+") returned nil on request #"+strconv.Itoa(m.n()+1))
-						return
-					}
-					ptr = unsafe.Pointer(t)
-					if j, dup := seen[ptr]; dup {
-						ts.add("P1-distinct", "duplicate:token", "task "+strconv.Itoa(ti)+" op "+strconv.Itoa(oi)+": token pool (block "+strconv.Itoa(m.spec.Block)+") request #"+strconv.Itoa(m.n()+1)+" returned the object already returned as #"+strconv.Itoa(j+1))
-						return
-					}
-					v, p := stampToken(t, next)
-					m.toks, m.priv, m.ppos = append(m.toks, t), append(m.priv, v), append(m.ppos, p)
-				} else {
-					p := m.pp.Get()
-					zzsim.BeginOp(zzsim.Inf)
-					if p == nil {
-						ts.add("P0-get-returns", "get-nil:position", "task "+strconv.Itoa(ti)+" op "+strconv.Itoa(oi)+": position pool (block "+strconv.Itoa(m.spec.Block)+") returned nil on request #"+strconv.Itoa(m.n()+1))
-						return
-					}
-					ptr = unsafe.Pointer(p)
-					if j, dup := seen[ptr]; dup {
-						ts.add("P1-distinct", "duplicate:position", "task "+strconv.Itoa(ti)+" op "+strconv.Itoa(oi)+": position pool (block "+strconv.Itoa(m.spec.Block)+") request #"+strconv.Itoa(m.n()+1)+" returned the object already returned as #"+strconv.Itoa(j+1))
-						return
-					}
-					stampPos(p, next)
-					m.poss = append(m.poss, p)
-				}
-				seen[ptr] = m.n()
-				m.stamp = append(m.stamp, next)
-				ts.gets++
-				if m.n() > 1 && (m.n()-1)%m.spec.Block == 0 {
-					ts.bounds++
+}
+
+// getOne takes one object from pool m and checks it against the model.
+func (pr *poolRun) getOne(m *poolModel, oi int) bool {
+	ts, ti := pr.ts, pr.ti
+	zzsim.BeginOp(100000 + 100*int64(m.spec.Block))
+	var ptr unsafe.Pointer
+	pr.next++
+	if m.spec.Type == "token" {
+		t := m.tp.Get()
+		zzsim.BeginOp(zzsim.Inf)
+		if t == nil {
+			ts.add("P0-get-returns", "get-nil:token", "task "+strconv.Itoa(ti)+" op "+strconv.Itoa(oi)+": token pool (block "+strconv.Itoa(m.spec.Block)+") returned nil on request #"+strconv.Itoa(m.n()+1))
+			return false
+		}
+		ptr = unsafe.Pointer(t)
+		if j, dup := pr.seen[ptr]; dup {
+			ts.add("P1-distinct", "duplicate:token", "task "+strconv.Itoa(ti)+" op "+strconv.Itoa(oi)+": token pool (block "+strconv.Itoa(m.spec.Block)+") request #"+strconv.Itoa(m.n()+1)+" returned the object already returned as #"+strconv.Itoa(j+1))
+			return false
+		}
+		v, p := stampToken(t, pr.next)
+		m.toks, m.priv, m.ppos = append(m.toks, t), append(m.priv, v), append(m.ppos, p)
+	} else {
+		p := m.pp.Get()
+		zzsim.BeginOp(zzsim.Inf)
+		if p == nil {
+			ts.add("P0-get-returns", "get-nil:position", "task "+strconv.Itoa(ti)+" op "+strconv.Itoa(oi)+": position pool (block "+strconv.Itoa(m.spec.Block)+") returned nil on request #"+strconv.Itoa(m.n()+1))
+			return false
+		}
+		ptr = unsafe.Pointer(p)
+		if j, dup := pr.seen[ptr]; dup {
+			ts.add("P1-distinct", "duplicate:position", "task "+strconv.Itoa(ti)+" op "+strconv.Itoa(oi)+": position pool (block "+strconv.Itoa(m.spec.Block)+") request #"+strconv.Itoa(m.n()+1)+" returned the object already returned as #"+strconv.Itoa(j+1))
+			return false
+		}
+		stampPos(p, pr.next)
+		m.poss = append(m.poss, p)
+	}
+	pr.seen[ptr] = m.n()
+	m.stamp = append(m.stamp, pr.next)
+	ts.gets++
+	if m.n() > 1 && (m.n()-1)%m.spec.Block == 0 {
+		ts.bounds++
+	}
+	return true
+}
+
+// step executes operation oi; false: the task is over (violation).
+func (pr *poolRun) step(oi int) (ok bool) {
+	defer pr.guard()
+	ts, ti := pr.ts, pr.ti
+	op := pr.pt.Ops[oi]
+	switch op.Kind {
+	case "get":
+		m := ts.models[op.Pool]
+		for k := 0; k < op.N; k++ {
+			if !pr.getOne(m, oi) {
+				return false
+			}
+		}
+	case "rr":
+		// the way the lexer uses its pools: one object from every pool of the
+		// task in turn, op.N rounds (the pools cross their block boundaries at
+		// different moments)
+		for k := 0; k < op.N; k++ {
+			for _, m := range ts.models {
+				if !pr.getOne(m, oi) {
+					return false
 				}
 			}
-		case "write":
-			m := ts.models[op.Pool]
-			if m.n() == 0 {
+		}
+		zzsim.AddProbe(probePoolsInTurn, 1)
+	case "write":
+		m := ts.models[op.Pool]
+		if m.n() == 0 {
+			return true
+		}
+		i := op.Arg % m.n()
+		pr.next++
+		if m.spec.Type == "token" {
+			m.priv[i], m.ppos[i] = stampToken(m.toks[i], pr.next)
+		} else {
+			stampPos(m.poss[i], pr.next)
+		}
+		m.stamp[i] = pr.next
+		// neighbours first (cheap), full verification at verify ops
+		for d := -2; d <= 2; d++ {
+			j := i + d
+			if j < 0 || j >= m.n() {
 				continue
 			}
-			i := op.Arg % m.n()
-			next++
+			ok := true
 			if m.spec.Type == "token" {
-				m.priv[i], m.ppos[i] = stampToken(m.toks[i], next)
+				ok = tokenHolds(m.toks[j], m.stamp[j], m.priv[j], m.ppos[j])
 			} else {
-				stampPos(m.poss[i], next)
+				ok = posHolds(m.poss[j], m.stamp[j])
 			}
-			m.stamp[i] = next
-			// neighbours first (cheap), full verification at verify ops
-			for d := -2; d <= 2; d++ {
-				j := i + d
-				if j < 0 || j >= m.n() {
-					continue
-				}
-				ok := true
-				if m.spec.Type == "token" {
-					ok = tokenHolds(m.toks[j], m.stamp[j], m.priv[j], m.ppos[j])
-				} else {
-					ok = posHolds(m.poss[j], m.stamp[j])
-				}
-				if !ok {
-					ts.add("P2-stays-valid", "object-changed:"+m.spec.Type, "task "+strconv.Itoa(ti)+" op "+strconv.Itoa(oi)+": writing through object #"+strconv.Itoa(i+1)+" changed object #"+strconv.Itoa(j+1)+" (block "+strconv.Itoa(m.spec.Block)+")")
-					return
-				}
+			if !ok {
+				ts.add("P2-stays-valid", "object-changed:"+m.spec.Type, "task "+strconv.Itoa(ti)+" op "+strconv.Itoa(oi)+": writing through object #"+strconv.Itoa(i+1)+" changed object #"+strconv.Itoa(j+1)+" (block "+strconv.Itoa(m.spec.Block)+")")
+				return false
 			}
-		case "verify":
-			if !ts.verify(ti, "verify op "+strconv.Itoa(oi)) {
-				return
-			}
-		case "renew":
-			// the caller lets go of the pool and keeps every object it got from
-			// it; a new pool of the same kind and block size takes its place
-			m := ts.models[op.Pool]
-			zzsim.BeginOp(100000 + 100*int64(m.spec.Block))
-			if m.spec.Type == "token" {
-				m.tp = token.NewPool(m.spec.Block)
-			} else {
-				m.pp = position.NewPool(m.spec.Block)
-			}
-			zzsim.BeginOp(zzsim.Inf)
-			zzsim.AddProbe(probePoolRenewed, 1)
-		case "gc":
-			zzsim.ForceGC()
-			if !ts.verify(ti, "after forced GC at op "+strconv.Itoa(oi)) {
-				return
-			}
+		}
+	case "verify":
+		if !ts.verify(ti, "verify op "+strconv.Itoa(oi)) {
+			return false
+		}
+	case "renew":
+		// the caller lets go of the pool and keeps every object it got from
+		// it; a new pool of the same kind and block size takes its place
+		m := ts.models[op.Pool]
+		zzsim.BeginOp(100000 + 100*int64(m.spec.Block))
+		if m.spec.Type == "token" {
+			m.tp = token.NewPool(m.spec.Block)
+		} else {
+			m.pp = position.NewPool(m.spec.Block)
+		}
+		zzsim.BeginOp(zzsim.Inf)
+		zzsim.AddProbe(probePoolRenewed, 1)
+	case "gc":
+		zzsim.ForceGC()
+		if !ts.verify(ti, "after forced GC at op "+strconv.Itoa(oi)) {
+			return false
+		}
+	}
+	return true
+}
+
+func runPoolTask(ti int, pt *scn.PoolTask, ts *poolTaskState, stampBase uint64) {
+	pr := &poolRun{ti: ti, pt: pt, ts: ts, seen: map[unsafe.Pointer]int{}, next: stampBase}
+	pr.create()
+	for oi := range pt.Ops {
+		if pr.dead || !pr.step(oi) || pr.dead {
+			return
 		}
 	}
 	ts.verify(ti, "end of task")
+}
+
+// runPoolRelay: the same operations executed by TWO simulated tasks taking turns
+// (operation i by task i mod 2). The baton is a real mutex, so every hand-over
+// of the pools is properly synchronised: a pool created by one goroutine and
+// used by another is supported usage, and nothing here is a data race.
+func runPoolRelay(ti int, pt *scn.PoolTask, ts *poolTaskState, stampBase uint64) {
+	pr := &poolRun{ti: ti, pt: pt, ts: ts, seen: map[unsafe.Pointer]int{}, next: stampBase}
+	var mu zsync.Mutex
+	turn, over := -1, false // -1: the pools are still to be created (by runner 1)
+	runner := func(me int) {
+		for {
+			mu.Lock()
+			switch {
+			case over || turn >= len(pt.Ops):
+				mu.Unlock()
+				return
+			case turn == -1 && me == 1:
+				pr.create()
+				turn, over = 0, pr.dead
+				zzsim.AddProbe(probePoolHandedOver, 1)
+			case turn >= 0 && turn%2 == me:
+				if !pr.step(turn) || pr.dead {
+					over = true
+				}
+				turn++
+				if turn >= len(pt.Ops) && !over {
+					ts.verify(ti, "end of task")
+				}
+			default:
+				mu.Unlock()
+				zzsim.Blocked()
+				continue
+			}
+			mu.Unlock()
+			zzsim.Progress()
+		}
+	}
+	zzsim.Spawn(func() { runner(0) })
+	zzsim.Spawn(func() { runner(1) })
 }
 
 func runC18(s *scn.Scenario, res *scn.Result) {
@@ -224,6 +315,10 @@ func runC18Pools(s *scn.Scenario, res *scn.Result) {
 	for i := range s.PoolTasks {
 		i := i
 		states[i] = &poolTaskState{}
+		if s.PoolTasks[i].Relay {
+			runPoolRelay(i, &s.PoolTasks[i], states[i], uint64(i+1)<<40)
+			continue
+		}
 		zzsim.Spawn(func() { runPoolTask(i, &s.PoolTasks[i], states[i], uint64(i+1)<<40) })
 	}
 	zzsim.Run()
